@@ -28,13 +28,13 @@ type Ledger struct {
 	Properties map[string]map[string]string `json:"properties"` // prop -> family -> kind
 }
 
-var famRe = regexp.MustCompile(`(@\d+|\.step\.\d+|\.decreases\.\d+)$`)
+var famRe = regexp.MustCompile(`(@\d+|(\.step|\.decreases)\.\d+)$`)
 var safetyRe = regexp.MustCompile(`#(bounds|slice|div|panic|make|nil|close)\d+$`)
 
 // family strips per-site ordinals so that adding or removing a site does not
 // change the identity of what is being checked.
 func family(id string) string {
-	id = famRe.ReplaceAllString(id, "")
+	id = famRe.ReplaceAllString(id, "$2")
 	if m := safetyRe.FindStringSubmatch(id); m != nil {
 		id = id[:strings.LastIndex(id, "#")] + "#" + m[1]
 	}
@@ -85,6 +85,7 @@ type checkRun struct {
 	tier     string
 	g        *Global
 	results  []*FuncResult
+	lemmaResults []*FuncResult
 	obls     []*Obligation
 	covers   []*Obligation
 	oblVC    map[*Obligation]*VC
@@ -155,6 +156,21 @@ func cmdCheck(args []string) int {
 		}
 		for _, o := range res.Covers {
 			cr.covers = append(cr.covers, o)
+			cr.oblVC[o] = res.VC
+		}
+	}
+	// lemmas proved by induction
+	seenLemma := map[*Lemma]bool{}
+	for _, k := range sortedKeys(g.cs.Lemmas) {
+		l := g.cs.Lemmas[k]
+		if seenLemma[l] || !hasProp(l.Props, *prop) {
+			continue
+		}
+		seenLemma[l] = true
+		res := verifyLemma(g, l)
+		cr.lemmaResults = append(cr.lemmaResults, res)
+		for _, o := range res.Obls {
+			cr.obls = append(cr.obls, o)
 			cr.oblVC[o] = res.VC
 		}
 	}
